@@ -61,6 +61,23 @@ func (m *Module) HandleMsg(ctx context.Context, respond hwebsocket.ResponseSende
 func (m *Module) HandleDisconnect() {
 }
 
+// maxCoordinate bounds the samples the grid accepts. The grid is dense: it allocates a cell for every
+// square of Resolution metres between its farthest samples, so a single absurd coordinate would exhaust
+// memory, and a non-finite one has no cell at all.
+const maxCoordinate = 1 << 12
+
+func validPoint(p *dagazpb.Point) bool {
+	if p == nil {
+		return false
+	}
+	for _, v := range []float32{p.X, p.Y, p.Z} {
+		if !(v >= -maxCoordinate && v <= maxCoordinate) { // false for NaN
+			return false
+		}
+	}
+	return true
+}
+
 func (m *Module) HandleDagazQuadSample(ctx context.Context, msg hwebsocket.Msg) error {
 	var newQuadSample dagazpb.DagazQuadSample
 	if err := msg.DataTo(&newQuadSample); err != nil {
@@ -75,6 +92,10 @@ func (m *Module) HandleDagazQuadSample(ctx context.Context, msg hwebsocket.Msg) 
 	}
 
 	for _, newQuad := range newQuadSample.Samples {
+		if newQuad == nil || !validPoint(newQuad.Center) || !validPoint(newQuad.Extents) {
+			// a sample without a centre or extents, or with a coordinate the grid cannot hold, is ignored
+			continue
+		}
 		quad := NewQuadFromProtobuf(newQuad)
 		m.state.SpatialPartition.InsertQuad(quad)
 	}
@@ -95,8 +116,11 @@ func (m *Module) HandleDagazGetGroundPlane(ctx context.Context, respond hwebsock
 			WithTag("msg_type", msg.Type)
 	}
 
-	ray := NewRayFromProtobuf(req.Ray)
-	quadHit, _ := m.state.SpatialPartition.IntersectQuad(ray)
+	var quadHit *Quad
+	if req.Ray != nil && req.Ray.From != nil && req.Ray.To != nil {
+		ray := NewRayFromProtobuf(req.Ray)
+		quadHit, _ = m.state.SpatialPartition.IntersectQuad(ray)
+	}
 
 	if quadHit == nil {
 		// create an invalid quad to be able to have a response:
@@ -130,7 +154,10 @@ func (m *Module) HandleDagazGetRegion(ctx context.Context, respond hwebsocket.Re
 			WithTag("msg_type", msg.Type)
 	}
 
-	regionQuads := m.state.SpatialPartition.GetRegion(NewVector3fFromProtobuf(req.Min), NewVector3fFromProtobuf(req.Max))
+	var regionQuads []*Quad
+	if req.Min != nil && req.Max != nil {
+		regionQuads = m.state.SpatialPartition.GetRegion(NewVector3fFromProtobuf(req.Min), NewVector3fFromProtobuf(req.Max))
+	}
 	regionQuadsProtobuf := make([]*dagazpb.Quad, len(regionQuads))
 	for i := 0; i < len(regionQuads); i++ {
 		regionQuadsProtobuf[i] = regionQuads[i].ToProtobuf()
